@@ -131,6 +131,49 @@ def check_read(ctx, rep, cls_qual):
                not touched, "handler only continues" if not touched else
                "a transient would-block/timeout alters the byte accounting: %s" % [A.norm(x) for x in touched], ctx.loc(h),
                kind="site")
+    # transient conditions are retried, not treated as end-of-stream (socket streams only)
+    if short == "SocketStream":
+        import ast as _ast
+
+        def tmo_raises(node_ast, kind):
+            if node_ast is None or kind in ("with_exit", "except", "with_enter"):
+                return set()
+            if isinstance(node_ast, _ast.Raise):
+                return None
+            if any(c is rc for rc in recvs for c in A.calls(node_ast)):
+                return {TimeoutError}
+            return set()
+        gt = ctx.cfg(f, raises=tmo_raises)
+        rn = [n for n in gt.live if n.ast is not None and n.kind == "stmt" and any(c is recvs[0] for c in A.calls(n.ast))]
+        heads = [n for n in gt.live if n.kind in ("test", "join") and getattr(n, "owner", None) is loop]
+        stops = [n for n in gt.live if n.ast is not None and n.kind == "stmt" and (
+            A.find_calls(n.ast, "self.close") or isinstance(n.ast, _ast.Raise))]
+        okt2 = bool(rn)
+        wit = None
+        for n in rn:
+            for t, l in n.succ:
+                if l != "exc":
+                    continue
+                if t is gt.excexit:
+                    okt2 = False
+                    wit = [n, t]
+                    continue
+                r = Q.reach([t], labels=("next", "true", "false"))
+                pth = Q.find_path(t, stops + [gt.exit], avoid=heads, labels=("next", "true", "false"), skip_first=False)
+                if pth is not None or not (set(heads) & r):
+                    okt2 = False
+                    wit = [n] + (pth or [t])
+        rep.ob("R05.1", "%s.read: a receive timeout is retried, not treated as a failure" % short, okt2,
+               "socket.timeout raised by recv() leads straight back to the loop" if okt2 else
+               "a socket.timeout while reading reaches close()/raise: a healthy connection whose peer is merely slow for longer "
+               "than the socket timeout is torn down in the middle of a packet", ctx.loc(recvs[0]),
+               witness=ctx.path(wit) if wit else None)
+        retry = [h for h in A.walk(loop) if isinstance(h, _ast.ExceptHandler) and any(
+            isinstance(i, _ast.If) and "retry_errnos" in A.src(i.test) and any(isinstance(x, _ast.Continue) for x in A.walk(i))
+            for i in A.walk(h))]
+        rep.ob("R05.1", "%s.read: would-block conditions (EAGAIN/EWOULDBLOCK) are retried" % short, bool(retry),
+               "`if get_exc_errno(ex) in retry_errnos: continue`" if retry else
+               "EAGAIN/EWOULDBLOCK while reading is treated as a failure (stream closed mid-packet)", ctx.loc(loop), kind="site")
     # the result is the concatenation of the accumulator
     rets = [n for n in A.walk(fn) if isinstance(n, ast.Return) and n.value is not None]
     okj = False
@@ -371,7 +414,13 @@ def check_channel(ctx, rep, rule="R05.4"):
         # normalise the payload expression
         def is_payload(s):
             if comp:
-                return s.startswith("zlib.compress(%s" % prm) and s.endswith(")") and "[" not in s.split(")")[-1]
+                try:
+                    e = ast.parse(s, mode="eval").body
+                except SyntaxError:
+                    return False
+                # the zlib container format: zlib.compress(payload[, level]) - no wbits / raw-deflate variants
+                return isinstance(e, ast.Call) and A.call_name(e) == "zlib.compress" and 1 <= len(e.args) <= 2 and \
+                    A.src(e.args[0]) == prm and all(k.arg == "level" for k in e.keywords)
             return s == prm
         ok = True
         why = []
